@@ -21,7 +21,7 @@ from vlib import zlit, zlist, blit, coq_opt, coq_list
 LEVEL = 'proof'
 _REPLAY = []      # case objects of --replay, run first like the corpus
 IMPORTS = ['SV.C11.Base', 'SV.C11.Utf8', 'SV.C11.Gen_events', 'SV.C11.Envelope', 'SV.C11.Tick',
-           'SV.C11.Notify', 'SV.C11.Routing', 'SV.C11.Capture', 'SV.C11.Listeners', 'SV.C11.Register', 'SV.C11.Corr']
+           'SV.C11.Notify', 'SV.C11.Routing', 'SV.C11.Capture', 'SV.C11.Listeners', 'SV.C11.Register', 'SV.C11.Pipe', 'SV.C11.Corr']
 HEADER_KEYS = [b'ver', b'server', b'serial', b'pool', b'poolserial', b'eventname', b'len']
 
 # docs/events.rst, written down independently of events.py: concrete class -> event name
@@ -1222,14 +1222,17 @@ def _run(chk, wd, proved):
     # ---------------- N. one pool, several listeners: OK / FAIL / malformed result line / reaped while BUSY or UNKNOWN
     ls_c, ls_m = part('listeners', 'Z * list lop * list (list Z) * list Z', 'check_listeners')
 
-    def listener_script(n, choose, length):
-        """A protocol-conforming script built with plain bookkeeping; returns (ops, per-listener serials, buffer)."""
+    def listener_script(n, choose, length, pipes=False):
+        """A protocol-conforming script built with plain bookkeeping; returns (ops, per-listener serials, buffer).
+        pipes=True: listeners' stdin pipes may be full (no room) when the pool dispatches and are drained later."""
         state = ['ack'] * n
         busy = [None] * n
         buf = []
         sent = [[] for _ in range(n)]
         nxt = [0]
         ops = []
+        full = [False] * n          # the listener's stdin pipe has no room
+        undelivered = [False] * n   # an envelope is waiting in input_buffer
 
         def dispatch():
             while buf:
@@ -1240,15 +1243,23 @@ def _run(chk, wd, proved):
                 ev = buf.pop(0)
                 sent[i].append(ev)
                 state[i], busy[i] = 'busy', ev
+                if full[i]:
+                    undelivered[i] = True
 
         for step in range(length):
             options = ['emit', 'dispatch']
             for i in range(n):
+                if full[i]:
+                    options.append(('drain', i))
+                    if state[i] == 'busy' and undelivered[i]:
+                        continue        # it cannot answer what it has not received
+                elif pipes and state[i] in ('ack', 'ready'):
+                    options.append(('full', i))
                 if state[i] == 'ack':
                     options.append(('ready', i))
                 elif state[i] == 'busy':
-                    options += [('ok', i), ('fail', i), ('garbage', i), ('reap', i)]
-                elif state[i] in ('unknown', 'ready'):
+                    options += [('ok', i), ('fail', i)] + ([] if pipes else [('garbage', i), ('reap', i)])
+                elif state[i] in ('unknown', 'ready') and not pipes:
                     options.append(('reap', i))
             o = choose(step, options)
             if o == 'emit':
@@ -1275,6 +1286,15 @@ def _run(chk, wd, proved):
                     if state[i] == 'busy':
                         buf.insert(0, busy[i])
                     state[i], busy[i] = 'dead', None
+                elif k == 'full':
+                    full[i] = True
+                elif k == 'drain':
+                    full[i] = False
+                    undelivered[i] = False
+        # at the end every pipe is drained, so that what was dispatched has been received
+        for i in range(n):
+            if full[i]:
+                ops.append(('drain', i))
         return ops, sent, list(buf)
 
     def lop_term(o):
@@ -1315,7 +1335,8 @@ def _run(chk, wd, proved):
             chk.violation({'kind': 'one notification per change: ' + bad, 'listeners': n, 'history': [list(o) for o in ops],
                            'serials_sent_per_listener': got, 'expected': want_sent, 'left_in_buffer': left,
                            'expected_in_buffer': want_buf, 'timeline': [list(t) for t in timeline]})
-        ls_c.append('(%d, %s, %s, %s)' % (n, coq_list(lop_term(o) for o in ops), coq_list(zlist(x) for x in got), zlist(left)))
+        ls_c.append('(%d, %s, %s, %s)' % (n, coq_list(lop_term(o) for o in ops if o[0] not in ('full', 'drain')),
+                                          coq_list(zlist(x) for x in got), zlist(left)))
         ls_m.append({'listeners': n, 'history': [list(o) for o in ops]})
 
     # fixed histories: each way of losing a BUSY listener, followed by its reaping, with a second listener taking over
@@ -1463,6 +1484,96 @@ def _run(chk, wd, proved):
                         coq_list('(%s, %s)' % (cn, blist(d)) for cn, d in held), zlit(es), blit(tq), blit(ee), zlit(int(now)),
                         rendered_term(evs)))
                     fl_m.append(replay)
+
+    # listeners whose stdin pipe is full when the pool dispatches (EAGAIN), drained later: still one copy per dispatch
+    full_fixed = [
+        [('ready', 0), ('ready', 1), ('full', 0), ('emit',), ('dispatch',), ('dispatch',), ('emit',), ('dispatch',), ('dispatch',),
+         ('drain', 0), ('ok', 0), ('ok', 1), ('ready', 0), ('ready', 1), ('dispatch',)],
+        [('ready', 0), ('full', 0), ('emit',), ('emit',), ('dispatch',), ('dispatch',), ('dispatch',), ('drain', 0), ('fail', 0),
+         ('ready', 0), ('dispatch',), ('ok', 0), ('ready', 0), ('dispatch',)],
+    ]
+    for ops in full_fixed:
+        it = iter(ops)
+        o2, ws, wb = listener_script(2, lambda step, options: (lambda o: o[0] if o[0] in ('emit', 'dispatch') else o)(next(it)),
+                                     len(ops), pipes=True)
+        run_listeners(2, o2, ws, wb)
+        chk.dist('listeners:full-pipe')
+    for _ in range(60 if quick else 1500):
+        n = rng.choice([1, 2, 3])
+
+        def choose_p(step, options):
+            w = [(3 if o in ('emit', 'dispatch') else (3 if o[0] in ('full', 'drain') else 2)) for o in options]
+            return rng.choices(options, weights=w)[0]
+        o2, ws, wb = listener_script(n, choose_p, rng.randrange(6, 22), pipes=True)
+        run_listeners(n, o2, ws, wb)
+        chk.dist('listeners:full-pipe')
+
+    # ---------------- R. the stdin pipe itself: Subprocess.write / handle_write_event with finite room
+    pp_c, pp_m = part('pipe', 'list piop * bytes * bytes', 'check_pipe')
+    pipe_histories = [[('write', b'abc', 0), ('write', b'de', 0), ('drain', 4), ('drain', 100)],
+                      [('write', b'envelope-1', 0), ('drain', 0), ('write', b'envelope-2', 3), ('drain', 100)]]
+    for _ in range(120 if quick else 3000):
+        h = []
+        for _ in range(rng.randrange(1, 7)):
+            room = rng.choice([0, 0, 1, 3, 10, 1000])
+            h.append(('write', body(rng.randrange(0, 9), rng.randrange(26)), room) if rng.random() < 0.6 else ('drain', room))
+        pipe_histories.append(h)
+    for h in pipe_histories:
+        got_b, left_b, exc = I.run_pipe(h)
+        whole = b''.join(o[1] for o in h if o[0] == 'write')
+        chk.dist('pipe:' + ('with-full-pipe' if any(o[-1] == 0 for o in h) else 'roomy'))
+        if exc is not None or got_b + left_b != whole:
+            chk.violation({'kind': 'a write to a listener\'s stdin with a full or nearly full pipe loses or repeats bytes, or the error '
+                                   'escapes from Subprocess.write', 'history': [_jsonable(list(o)) for o in h], 'exception': exc,
+                           'received': list(got_b), 'left_in_input_buffer': list(left_b)})
+        pp_c.append('(%s, %s, %s)' % (coq_list(('(PiWrite %s %s)' % (blist(o[1]), zlit(o[2]))) if o[0] == 'write'
+                                               else '(PiDrain %s)' % zlit(o[1]) for o in h), blist(got_b), blist(left_b)))
+        pp_m.append([_jsonable(list(o)) for o in h])
+
+    # ---------------- S. capture tokens split at every byte position; the daemon's loglevel
+    pre = b'ordinary output before the section....\n'
+    post = b'ordinary output after the section.....\n'
+    sdata = body(40, 5)
+    for tok_name, tok in (('BEGIN', BEGIN), ('END', END)):
+        for ppos in range(1, len(tok)):
+            if quick and ppos not in (1, 2, 3, len(tok) // 2, len(tok) - 2, len(tok) - 1) and ppos % 5:
+                continue
+            whole = pre + BEGIN + sdata + END + post
+            cut = (len(pre) if tok_name == 'BEGIN' else len(pre) + len(BEGIN) + len(sdata)) + ppos
+            reads = [whole[:cut], whole[cut:]]
+            for channel in ('stdout', 'stderr'):
+                res = I.run_capture(64, reads, channel=channel)
+                chk.dist('capture:token-split:%s' % tok_name)
+                carried = [parse_header_bytes(st)[1].partition(b'\n')[2] if parse_header_bytes(st) else None for _, _, _, _, st in res]
+                if carried != [sdata]:
+                    chk.violation({'kind': 'a capture token split across two reads: not exactly one PROCESS_COMMUNICATION notification '
+                                           'carrying the section\'s data', 'token': tok_name, 'split_after_byte': ppos, 'channel': channel,
+                                   'reads': [list(r) for r in reads], 'section_data': list(sdata),
+                                   'carried': [None if c is None else list(c) for c in carried]})
+                for cn, evdata, serial, ps, stream in res[:1]:
+                    cp_c.append('(%s, %s, (%s, %s, %s, %s, %s, %s, %s, %s), %s)' % (
+                        zlit(64), coq_list([blist(sdata)]), tlit('supervisor'), tlit('pool'), zlit(serial), zlit(ps),
+                        cn, tlit('worker'), ogroup('grp'), zlit(3131), obytes(stream)))
+                    cp_m.append({'token_split': tok_name, 'position': ppos, 'channel': channel})
+    for lname, lvl in sorted(vars(_loggers.LevelsByName).items()):
+        if lname.startswith('_'):
+            continue
+        for capmax, total in ((64, 64), (64, 30)):
+            data = body(total, lvl)
+            parts_ = splits(data, 2) if total >= 46 else [data]
+            reads = [BEGIN + parts_[0]] + parts_[1:] + [END + post]
+            res = I.run_capture(capmax, reads, channel='stdout', loglevel=lvl)
+            chk.dist('capture:loglevel:%s' % lname)
+            carried = [parse_header_bytes(st)[1].partition(b'\n')[2] if parse_header_bytes(st) else None for _, _, _, _, st in res]
+            if carried != [data]:
+                chk.violation({'kind': 'PROCESS_COMMUNICATION data depends on the daemon\'s loglevel', 'loglevel': lname,
+                               'capture_maxbytes': capmax, 'reads': [list(r) for r in reads], 'section_data': list(data),
+                               'carried': [None if c is None else list(c) for c in carried]})
+            for cn, evdata, serial, ps, stream in res[:1]:
+                cp_c.append('(%s, %s, (%s, %s, %s, %s, %s, %s, %s, %s), %s)' % (
+                    zlit(capmax), coq_list(blist(c) for c in parts_), tlit('supervisor'), tlit('pool'), zlit(serial), zlit(ps),
+                    cn, tlit('worker'), ogroup('grp'), zlit(3131), obytes(stream)))
+                cp_m.append({'loglevel': lname, 'capture_maxbytes': capmax})
 
     # ---------------- compare everything inside Coq
     total = 0
